@@ -56,6 +56,7 @@ type Stats struct {
 	ChanOps    int
 	MapRanges  int
 	LoopYields int
+	StmtYields int
 	Makes      int
 	Knobs      int
 	Rewritten  []string
@@ -111,6 +112,19 @@ var knobFiles = map[string][]knobSpec{
 		{Ident: "lowWaterMark", Name: "gmw.lowWaterMark"},
 		{AssignLHS: "batchSize", Name: "gmw.batchSize"},
 	},
+}
+
+// stmtYieldFiles: files whose functions guard shared state with a mutex get a
+// scheduling point before every statement (variant "stmt"): inside a held lock
+// the extra points change nothing (the others block on the lock), but code that
+// touches the shared state without the lock - or after releasing it too early -
+// becomes interleavable, which the scheduling points at the lock operations
+// alone cannot show. The value selects the functions: "" = all, otherwise only
+// functions whose source mentions the string.
+var stmtYieldFiles = map[string]string{
+	"/p2p/network.go": "",
+	"/gmw/triples.go": "",
+	"/gmw/network.go": ".m.Lock()",
 }
 
 var loopYieldFiles = map[string]bool{
@@ -316,6 +330,55 @@ func (c *fileCtx) rewriteFile(f *ast.File) {
 					}
 				}(cm.Text)
 			}
+		}
+	}
+
+	if sel, ok := stmtYieldFiles[c.relFile]; ok && c.variant == "stmt" {
+		for _, d := range f.Decls {
+			fd, ok := d.(*ast.FuncDecl)
+			if !ok || fd.Body == nil {
+				continue
+			}
+			if sel != "" {
+				var buf bytes.Buffer
+				format.Node(&buf, c.fset, fd)
+				if !strings.Contains(buf.String(), sel) {
+					continue
+				}
+			}
+			caseBlocks := map[*ast.BlockStmt]bool{} // bodies of switch statements hold clauses, not statements
+			ast.Inspect(fd.Body, func(n ast.Node) bool {
+				var list *[]ast.Stmt
+				switch b := n.(type) {
+				case *ast.SwitchStmt:
+					caseBlocks[b.Body] = true
+				case *ast.TypeSwitchStmt:
+					caseBlocks[b.Body] = true
+				case *ast.SelectStmt:
+					caseBlocks[b.Body] = true
+				case *ast.BlockStmt:
+					if caseBlocks[b] {
+						return true
+					}
+					list = &b.List
+				case *ast.CaseClause:
+					list = &b.Body
+				}
+				if list == nil || len(*list) == 0 {
+					return true
+				}
+				out := make([]ast.Stmt, 0, 2*len(*list))
+				for _, st := range *list {
+					if _, isDecl := st.(*ast.DeclStmt); !isDecl {
+						out = append(out, &ast.ExprStmt{X: &ast.CallExpr{Fun: rtSel("Yield")}})
+						c.st.StmtYields++
+					}
+					out = append(out, st)
+				}
+				*list = out
+				c.mark(true)
+				return true
+			})
 		}
 	}
 
